@@ -81,6 +81,9 @@ pub struct ActorDecl {
     pub strategy: Strategy,
     pub timeout: Option<u64>,
     pub fail_on_timeout: bool,
+    /// order / place in which the builder's timeout() and fail_on_timeout() are called:
+    /// bit0: fail_on_timeout before timeout; bit1: on the builder-with-channel instead of the base builder
+    pub cfg_order: u8,
     pub stream: Option<StreamSpec>,
     pub entry: Entry,
     pub started: Vec<SStep>,
@@ -106,6 +109,7 @@ impl ActorDecl {
             strategy: Strategy::RestartOnly,
             timeout: None,
             fail_on_timeout: false,
+            cfg_order: 0,
             stream: None,
             entry: Entry::Builder,
             started: vec![],
